@@ -111,6 +111,10 @@ def gen_spans(rng, sorted_only, min_ms_len=False):
             s, e = ts[2 * i], ts[2 * i + 1]
             if i + 1 < n and rng.random() < 0.35:
                 ts[2 * i + 2] = e          # touching cues
+            if not min_ms_len and rng.random() < 0.2:
+                e = s + rng.choice([0, 1, 400, 999, 30000, 39999])     # shorter than a millisecond / a frame
+                if (i + 1 < n and exact(ts[2 * i + 2]) < exact(e)) or exact(e) > 86399999999:
+                    e = s
             spans.append((s, e))
         if min_ms_len:
             spans = [(s, e) for (s, e) in spans if exact(s) // 1000 < exact(e) // 1000]
@@ -125,8 +129,8 @@ def gen_spans(rng, sorted_only, min_ms_len=False):
     while len(spans) < n:
         a, b = gen_time(rng), gen_time(rng)
         s, e = (a, b) if exact(a) <= exact(b) else (b, a)
-        if rng.random() < 0.2:
-            e = s + rng.choice([0, 1, 999, 1000, 900])
+        if rng.random() < 0.3:      # captions shorter than one millisecond / one frame (start <= end is all the domain asks)
+            e = s + rng.choice([0, 0, 1, 999, 1000, 900, 30000, 39999, 40000, 0.5])
             if exact(e) > 86399999999:
                 e = s
         run = rng.choice([1, 1, 1, 2, 3, 4])
@@ -141,24 +145,69 @@ def gen_spans(rng, sorted_only, min_ms_len=False):
     return spans[:max(n, 1)]
 
 
-def build_set(langs_spans, two_layout):
+L3 = Layout(alignment=Alignment(HorizontalAlignmentEnum.CENTER, VerticalAlignmentEnum.TOP))
+LAYOUTS = {0: None, 1: L1, 2: L2, 3: L3}
+
+
+def node_codes(seed, k):
+    """node kinds of caption k of the first language (wire of request 205): 0 text without layout, 1..3 text with that
+    layout, -1 break, -2 style node emitting a tag.  seed falsy: one plain text node."""
+    if not seed:
+        return [0]
+    import random
+    r = random.Random(seed * 7919 + k)
+    if r.random() < 0.35:
+        return [0]
+    codes = []
+    if r.random() < 0.1:
+        codes.append(-1)
+    for i in range(r.choice([1, 2, 2, 3, 4])):
+        if i and r.random() < 0.8:
+            codes.append(-1)
+        lay = r.choice([0, 1, 1, 2, 2, 3])
+        if r.random() < 0.15:
+            codes += [-2, lay, -2]
+        else:
+            codes.append(lay)
+    return codes
+
+
+def build_set(langs_spans, layout_seed):
+    """returns the caption set and, per caption of the first language, its node codes"""
     d = {}
-    groups = []
+    codes_all = []
     for li, spans in enumerate(langs_spans):
         caps = []
         for k, (s, e) in enumerate(spans):
-            if li == 0 and two_layout and k % 3 == 1:
-                nodes = [CaptionNode.create_text("up %d" % k, layout_info=L1), CaptionNode.create_break(),
-                         CaptionNode.create_text("down %d" % k, layout_info=L2)]
-                if li == 0:
-                    groups.append(2)
-            else:
-                nodes = [CaptionNode.create_text("text %d %d" % (li, k))]
-                if li == 0:
-                    groups.append(1)
+            codes = node_codes(layout_seed, k) if li == 0 else [0]
+            nodes = []
+            opened = False
+            for j, c in enumerate(codes):
+                if c == -1:
+                    nodes.append(CaptionNode.create_break())
+                elif c == -2:
+                    opened = not opened
+                    nodes.append(CaptionNode.create_style(opened, {"italics": True}))
+                else:
+                    nodes.append(CaptionNode.create_text("text %d %d %d" % (li, k, j), layout_info=LAYOUTS[c]))
+            if li == 0:
+                codes_all.append(codes)
             caps.append(Caption(s, e, nodes))
         d[LANGS[li]] = CaptionList(caps)
-    return CaptionSet(d), groups
+    return CaptionSet(d), codes_all
+
+
+def groups_of(codes_lists):
+    """WebVTT layout groups per caption, from the model (request 205)"""
+    flat = [c for cl in codes_lists for c in cl]
+    res = []
+    for part in oracle_batch([(205, flat[i:i + 400]) for i in range(0, len(flat), 400)]):
+        res.extend(part)
+    out, i = [], 0
+    for cl in codes_lists:
+        out.append(res[i:i + len(cl)])
+        i += len(cl)
+    return out
 
 
 # ---- token extraction ---------------------------------------------------------------------------
@@ -299,7 +348,7 @@ def run(ctx):
     cases = []
     for i in range(n):
         nl = rng.choice([1, 1, 1, 2, 3])
-        two = rng.random() < 0.3
+        two = rng.randrange(1, 10**6) if rng.random() < 0.35 else 0
         # arbitrary (unsorted, overlapping, runs) in the first language; further languages sorted
         langs = [gen_spans(rng, sorted_only=(rng.random() < 0.4))]
         for _ in range(nl - 1):
@@ -307,8 +356,11 @@ def run(ctx):
         cases.append((langs, two))
     # ---- the 7 line / xml writers --------------------------------------------------------------
     model_reqs, jobs = [], []
-    for (langs, two) in cases:
-        cs, groups = build_set(langs, two)
+    built = [build_set(langs, two) for (langs, two) in cases]
+    all_groups = groups_of([codes for (_, codes) in built])
+    dist["captions_with_several_layout_groups"] = sum(1 for gl in all_groups for g in gl if g > 1)
+    dist["max_layout_groups"] = max([g for gl in all_groups for g in gl] + [0])
+    for (langs, two), (cs, codes), groups in zip(cases, built, all_groups):
         for kind in WRITERS:
             obs = observe(kind, cs, None)
             for li, spans in enumerate(langs):
@@ -429,10 +481,13 @@ def run(ctx):
         "theorem": ["shared formatter / WebVTT formatter: printed fields parse (independent parser) to floor(rhe t/1000) ms, "
                     "2/2/2/3 digits, MM<60, SS<60, for all 0 <= t < 24 h; rhe t = t on integers; value accepted by the spec",
                     "MicroDVD frames and SAMI ms are the floors, printed as integer literals",
-                    "SAMI sync rule over all caption lists", "SRT and legacy/single-position cues = maximal runs"],
+                    "SAMI sync rule over all caption lists", "SRT and legacy/single-position cues = maximal runs",
+                    "DFXP one <p> per caption, MicroDVD one line per caption, WebVTT one cue per layout group with the "
+                    "caption's times (models satisfy ok_cues)"],
         "correspondence_only": ["binary64 int(t*25.0/1e6) of MicroDVD (model exact; two-valued float inputs counted)",
                                 "token extraction through lxml / html.parser / block splitters",
-                                "DFXP one <p> per caption, WebVTT one cue per layout group (model = map)",
+                                "the real DFXP / WebVTT writers print exactly the cues of the caption-list models "
+                                "(C02_dfxp_one_p_per_caption, C02_vtt_cues_same_times are theorems on the models)",
                                 "SAMI placement of syncs of further languages (bs4 find / insert)"]}
     res["samples"] = [{"spans": [[repr(s), repr(e)] for (s, e) in cases[0][0][0]]}]
     return res
@@ -476,7 +531,8 @@ def replay(ctx, rec):
         o = obs.v.get(LANGS[li], [])
         return oracle1(203, [wire_caps(spans), o]) != 1, o
     kind = rec["writer"]
-    cs, groups = build_set(langs, rec.get("two_layout", False))
+    cs, codes = build_set(langs, rec.get("two_layout", 0))
+    groups = groups_of([codes])[0]
     obs = observe(kind, cs, None)
     if isinstance(obs, Err):
         return True, repr(obs)
